@@ -41,6 +41,14 @@ Definition on_rune_boundaries (s : bytes) (a b : Z) : Prop :=
   exists ka kb, 0 <= ka /\ ka <= kb /\ kb <= zlen (runes s) /\
     a = zlen (concat (ztake ka (runes s))) /\ b = zlen (concat (ztake kb (runes s))).
 
+(* the two hypotheses on a regex engine, as named predicates (used to state the theorems
+   after the Section is closed) *)
+Definition engine_bounds (ff : bytes -> Z -> option (Z * Z)) : Prop :=
+  forall s pos a b, 0 <= pos <= zlen s -> ff s pos = Some (a, b) -> pos <= a /\ a <= b /\ b <= zlen s.
+Definition engine_step (ff : bytes -> Z -> option (Z * Z)) : Prop :=
+  forall s pos a b, 0 <= pos <= zlen s -> ff s pos = Some (a, b) -> b <> pos ->
+    pos + snd (decode_rune (zdrop pos s)) <= b.
+
 (* ---- helpers ------------------------------------------------------------------- *)
 Lemma slice_sub_str s a b : 0 <= a -> a <= b -> b <= zlen s -> slice s a b = Ok (sub_str s a b).
 Proof. intros. unfold sub_str. apply slice_ok; assumption. Qed.
